@@ -4,7 +4,9 @@ quick checks, record which check reports which violation signature, keep one min
 the target property as a regression case under replays/<Cxx>/, and always revert /repo."""
 import json, os, re, subprocess, sys, glob, shutil
 
-ROOT = "/verif"
+ROOT = os.environ.get("MX_ROOT", "/verif")
+REPO = os.environ.get("MX_REPO", "/repo")
+SHARD = os.environ.get("MX_SHARD")  # "i/n": only every n-th seeded id, offset i
 ALL = [f"C{i:02d}" for i in range(1, 18)] + ["C19"]
 only = sys.argv[1:]  # optional list of seeded ids
 
@@ -12,21 +14,24 @@ def sh(cmd, **kw):
     return subprocess.run(cmd, shell=True, capture_output=True, text=True, **kw)
 
 def clean_repo():
-    sh("git -C /repo checkout -- . && git -C /repo clean -fdq src")
+    sh(f"git -C {REPO} checkout -- . && git -C {REPO} clean -fdq src")
 
-assert sh("git -C /repo diff --quiet").returncode == 0, "/repo has uncommitted changes"
+assert sh(f"git -C {REPO} diff --quiet").returncode == 0, "/repo has uncommitted changes"
 matrix = {}
-mpath = os.path.join(ROOT, "seeded", "MATRIX.json")
+mpath = os.path.join(ROOT, "seeded", "MATRIX.json" if not SHARD else "MATRIX.%s.json" % SHARD.replace("/", "of"))
 if os.path.exists(mpath):
     matrix = json.load(open(mpath))
 dirs = sorted(d for d in os.listdir(os.path.join(ROOT, "seeded")) if os.path.isdir(os.path.join(ROOT, "seeded", d)))
+if SHARD:
+    i, n = map(int, SHARD.split('/'))
+    dirs = [d for k, d in enumerate(dirs) if k % n == i]
 for sid in dirs:
     if only and sid not in only:
         continue
     prop = sid.split("-")[0]
     patch = os.path.join(ROOT, "seeded", sid, "patch.diff")
     try:
-        if sh(f"git -C /repo apply {patch}").returncode != 0:
+        if sh(f"git -C {REPO} apply {patch}").returncode != 0:
             matrix[sid] = {"error": "patch does not apply to the current /repo HEAD"}
             print(sid, "PATCH DOES NOT APPLY")
             continue
